@@ -41,6 +41,7 @@ meta = {
         "pristine_demo": "pass", "suite_with_patch": "pass", "patched_demo": "fail",
     },
     "checks_run": "tools/mutcheck.sh: the simulator rebuilt against a scratch worktree with the patch applied, every registered check at the quick tier",
+    "checks_at_commit": __import__("subprocess").run(["git", "-C", "/verif", "rev-parse", "--short", "HEAD"], capture_output=True, text=True).stdout.strip(),
     "caught_by": caught,
     "violation_classes": detail,
 }
